@@ -276,6 +276,56 @@ impl SvgCfg {
     }
 }
 
+/// Image geometry overrides over the whole range a caller may pass (finite values): size 0, fractions, ordinary,
+/// very large; gap negative down to and beyond minus half the size (a logo without backing box), zero, positive, large;
+/// position anywhere, including coordinates exactly 0.0, negative and beyond the symbol. Each independently absent.
+pub fn image_geometry() -> BoxedStrategy<(Option<f64>, Option<f64>, Option<(f64, f64)>)> {
+    let value = |lo: f64, hi: f64| -> BoxedStrategy<f64> {
+        prop_oneof![
+            3 => ((lo.ceil() as i64)..=(hi.floor() as i64)).prop_map(|x| x as f64),
+            2 => ((2.0 * lo).ceil() as i64..=(2.0 * hi).floor() as i64).prop_map(|x| x as f64 / 2.0),
+            3 => (0u32..=1_000_000).prop_map(move |t| lo + (hi - lo) * (t as f64) / 1_000_000.0),
+        ]
+        .boxed()
+    };
+    let size = prop_oneof![
+        3 => Just(None),
+        5 => value(1.0, 40.0).prop_map(Some),
+        1 => prop_oneof![Just(0.0f64), Just(0.25), Just(0.5), Just(1e-9), Just(1000.0), Just(1e9)].prop_map(Some),
+    ];
+    (size, 0usize..12, value(-12.0, 12.0), any::<[bool; 2]>(), value(-20.0, 220.0), value(-20.0, 220.0), 0usize..8).prop_map(|(size, gsel, gabs, present, x, y, psel)| {
+        let s = size.unwrap_or(5.0);
+        let gap = if !present[0] {
+            None
+        } else {
+            Some(match gsel {
+                0 => -s / 2.0,
+                1 => -s,
+                2 => -s / 2.0 - 0.5,
+                3 => -s / 2.0 + 0.5,
+                4 => -s / 4.0,
+                5 => 0.0,
+                6 => s,
+                7 => 1e6,
+                _ => gabs,
+            })
+        };
+        let pos = if !present[1] {
+            None
+        } else {
+            Some(match psel {
+                0 => (0.0, y),
+                1 => (x, 0.0),
+                2 => (0.0, 0.0),
+                3 => (-x, y),
+                _ => (x, y),
+            })
+        };
+        (size, gap, pos)
+    })
+    .boxed()
+}
+
 /// warm-up settings for renderer-instance reuse (absent in 3 of 5 cases)
 pub fn warm_strategy() -> BoxedStrategy<Option<(usize, Option<usize>)>> {
     prop_oneof![
